@@ -290,7 +290,7 @@ def run(ctx):
     if not proof_ok and not ctx.violations:
         ctx.violation("proof obligation no longer checks: %s" % ctx.broken,
                       {"broken": ctx.broken, "searched": "all drop orders above agree with the model and the property"}, no_input=True)
-    ctx.level = "partial"
+    ctx.level = "proof"
     ctx.assumptions = [
         "theorems are about the Gallina model coq/model/Own.v: reference counting over a finite object graph; an owned field is a counted reference with count 1; finalisers are lists of created/removed named resources",
         "the type-level keeps graph is generated from /repo by harness/xlate-own (trusted for what it extracts: struct/enum fields of the scanned files, Arc/Rc/Service::ArcThreadSafetyPolicy = Counted, by-value = Owned, &'a = Borrow, &'static = StaticRef); two OS-level sharing edges are added by hand (ServiceState -> os::Service via the node registry in the dynamic config, Sender/Receiver -> os::Connection) and are not derived from the source",
